@@ -1300,12 +1300,13 @@ func corpusFiles() map[string][]string {
 			"# the source is overwritten in place (same inode as the link in plz-out): the new content must be verified",
 			"def t0 G 1 Ga " + hl(h("sha256", "Ga")), "build t0", "inplace t0 Gb", "build t0",
 		},
-		"known-hashcheckers-change-not-reverified.ops": {
-			"# build.hashcheckers is not part of Configuration.Hash(): narrowing it does not invalidate verified outputs",
+		"fixed-hashcheckers-change-not-reverified.ops": {
+			"# FIXED (/repo 9c3fe2b): build.hashcheckers used to reach neither the rule hash nor the config hash; narrowing it must now",
+			"# invalidate outputs that verified only under a dropped algorithm (the second build re-runs and fails)",
 			"reset", def, "cache 0", dig("Fa"),
 			"def t0 F 0 Fa " + hl("sha1: "+h("sha1", "Fa")), "build t0",
 			"conf sha256 sha256", "build t0",
-			"# a clean build under the same configuration fails",
+			"# a clean build under the same configuration fails too",
 			"wipe", "build t0",
 		},
 		"corner-cases.ops": {
